@@ -320,3 +320,100 @@ package dastard
 //@   ensures created: droppedFrames > 0 && ds.writingState.Active && old(ds.writingState.dataDropFileBufferedWriter) == nil ==> ds.writingState.dataDropFileBufferedWriter != nil
 //@        && fresh(ds.writingState.dataDropFileBufferedWriter) && ds.writingState.dataDropFileBufferedWriter.items == 2
 //@   modifies ds.writingState.dataDropFile, ds.writingState.dataDropFileBufferedWriter, ds.writingState.dataDropsObserved, ds.writingState.dataDropHaveSentAMessage, any(bufio.Writer).n, any(bufio.Writer).acc, any(bufio.Writer).items
+
+// ---------------------------------------------------------------------------------------------
+// PublishData: records are stored exactly when a writer is installed and the channel is not
+// paused (C06), and what is stored is exactly the records, in order, with the documented binary
+// layout (C05).  W.mark[j] is the file offset at which queued item j starts.
+// ---------------------------------------------------------------------------------------------
+//@ ufunc unixnano(t time.Time) int
+//@ extern func (time.Time).UnixNano
+//@   pure
+//@   ensures result == unixnano(t)
+
+//@ func rawTypeToUint16
+//@   trusted
+//@   ensures len(result) == len(slice_in) && allocated(result)
+//@   ensures forall p int :: {at(result, p)} result.off <= p && p < result.off + len(result) ==> at(result, p) == at(slice_in, slice_in.off + p - result.off)
+//@   modifies nothing
+
+//@ func (*DataPublisher).HasPubRecords
+//@   props C05
+//@   ensures result == (dp.PubRecordsChan != nil)
+//@   modifies nothing
+//@ func (*DataPublisher).HasPubSummaries
+//@   props C05
+//@   ensures result == (dp.PubSummariesChan != nil)
+//@   modifies nothing
+
+// LJH 2.2 record number j of writer W is record r (doc/LJH.md: subframe count, timestamp in microseconds, samples).
+//@ pred Rec22Len(W *asyncbufio.Writer, j int, r *DataRecord) := W.mark[j + 1] == W.mark[j] + 16 + 2 * len(r.data)
+//@ pred Rec22Count(W *asyncbufio.Writer, j int, r *DataRecord, sd int, so int) := forall i int :: {W.acc[i]} W.mark[j] <= i && i < W.mark[j] + 8 ==> W.acc[i] == lebyte(r.trigFrame * sd + so, i - W.mark[j])
+//@ pred Rec22Stamp(W *asyncbufio.Writer, j int, r *DataRecord) := forall i int :: {W.acc[i]} W.mark[j] + 8 <= i && i < W.mark[j] + 16 ==> W.acc[i] == lebyte(tdiv(unixnano(r.trigTime), 1000), i - W.mark[j] - 8)
+//@ pred Rec22Samples(W *asyncbufio.Writer, j int, r *DataRecord) := forall i int :: {W.acc[i]} W.mark[j] + 16 <= i && i < W.mark[j] + 16 + 2 * len(r.data) ==> W.acc[i] == lebyte(at(r.data, r.data.off + (i - W.mark[j] - 16) / 2), (i - W.mark[j] - 16) % 2)
+
+//@ pred RecsReadable(rs []*DataRecord) := allocated(rs) && (forall p int :: {at(rs, p)} rs.off <= p && p < rs.off + len(rs) ==> at(rs, p) != nil && allocated(at(rs, p)) && allocated(at(rs, p).data) && allocated(at(rs, p).modelCoefs) && len(at(rs, p).data) < 1073741824)
+//@ pred W22OK(w *ljh.Writer) := w != nil ==> allocated(w) && (w.HeaderWritten ==> w.writer != nil && allocated(w.writer) && WInv(w.writer)) && (!w.HeaderWritten ==> w.file == nil)
+//@ pred W3OK(w *ljh.Writer3) := w != nil ==> allocated(w) && (w.HeaderWritten ==> w.writer != nil && allocated(w.writer) && WInv(w.writer)) && (!w.HeaderWritten ==> w.file == nil)
+//@ pred WOFFOK(w *off.Writer) := w != nil ==> allocated(w) && (w.headerWritten ==> w.writer != nil && allocated(w.writer) && WInv(w.writer)) && (!w.headerWritten ==> w.file == nil)
+//@        && w.ModelInfo.projectors != nil && w.ModelInfo.basis != nil
+
+//@ func (*DataPublisher).PublishData
+//@   props C05 C06
+//@   requires !IOFaults() && !QueueFull() && RecsReadable(records) && W22OK(dp.LJH22) && W3OK(dp.LJH3) && WOFFOK(dp.OFF)
+//@   requires distinct: (dp.LJH22 != nil && dp.LJH3 != nil && dp.LJH22.HeaderWritten && dp.LJH3.HeaderWritten ==> dp.LJH22.writer != dp.LJH3.writer)
+//@        && (dp.LJH22 != nil && dp.OFF != nil && dp.LJH22.HeaderWritten && dp.OFF.headerWritten ==> dp.LJH22.writer != dp.OFF.writer)
+//@        && (dp.LJH3 != nil && dp.OFF != nil && dp.LJH3.HeaderWritten && dp.OFF.headerWritten ==> dp.LJH3.writer != dp.OFF.writer)
+//@   requires lens: dp.LJH22 != nil ==> (forall p int :: {at(records, p)} records.off <= p && p < records.off + len(records) ==> len(at(records, p).data) == dp.LJH22.Samples)
+//@   ensures inv: W22OK(dp.LJH22) && W3OK(dp.LJH3) && WOFFOK(dp.OFF) && unchanged(dp.LJH22, dp.LJH3, dp.OFF, dp.WritingPaused)
+//@   ensures gate: len(records) == 0 || dp.WritingPaused || (dp.LJH22 == nil && dp.LJH3 == nil && dp.OFF == nil) ==> result == nil && unchanged(dp.numberWritten)
+//@        && (dp.LJH22 != nil ==> unchanged(dp.LJH22.HeaderWritten, dp.LJH22.writer, dp.LJH22.RecordsWritten) && (dp.LJH22.writer != nil ==> unchanged(dp.LJH22.writer.n, dp.LJH22.writer.items)))
+//@        && (dp.LJH3 != nil ==> unchanged(dp.LJH3.HeaderWritten, dp.LJH3.writer, dp.LJH3.RecordsWritten) && (dp.LJH3.writer != nil ==> unchanged(dp.LJH3.writer.n, dp.LJH3.writer.items)))
+//@        && (dp.OFF != nil ==> unchanged(dp.OFF.headerWritten, dp.OFF.writer, dp.OFF.recordsWritten) && (dp.OFF.writer != nil ==> unchanged(dp.OFF.writer.n, dp.OFF.writer.items)))
+//@   ensures stored22: len(records) > 0 && !dp.WritingPaused && dp.LJH22 != nil && (result == nil || dp.OFF != nil) ==> dp.LJH22.HeaderWritten && dp.LJH22.writer != nil
+//@        && dp.LJH22.writer.items == ite(old(dp.LJH22.HeaderWritten), old(dp.LJH22.writer.items), 1) + len(records)
+//@        && dp.LJH22.RecordsWritten == old(dp.LJH22.RecordsWritten) + len(records)
+//@   ensures len22: forall j int :: {dp.LJH22.writer.mark[j]} len(records) > 0 && !dp.WritingPaused && dp.LJH22 != nil && (result == nil || dp.OFF != nil) && dp.LJH22.writer.items - len(records) <= j && j < dp.LJH22.writer.items ==> Rec22Len(dp.LJH22.writer, j, at(records, records.off + j - (dp.LJH22.writer.items - len(records))))
+//@   ensures count22: forall j int :: {dp.LJH22.writer.mark[j]} len(records) > 0 && !dp.WritingPaused && dp.LJH22 != nil && (result == nil || dp.OFF != nil) && dp.LJH22.writer.items - len(records) <= j && j < dp.LJH22.writer.items ==> Rec22Count(dp.LJH22.writer, j, at(records, records.off + j - (dp.LJH22.writer.items - len(records))), dp.LJH22.SubframeDivisions, dp.LJH22.SubframeOffset)
+//@   ensures stamp22: forall j int :: {dp.LJH22.writer.mark[j]} len(records) > 0 && !dp.WritingPaused && dp.LJH22 != nil && (result == nil || dp.OFF != nil) && dp.LJH22.writer.items - len(records) <= j && j < dp.LJH22.writer.items ==> Rec22Stamp(dp.LJH22.writer, j, at(records, records.off + j - (dp.LJH22.writer.items - len(records))))
+//@   ensures samples22: forall j int :: {dp.LJH22.writer.mark[j]} len(records) > 0 && !dp.WritingPaused && dp.LJH22 != nil && (result == nil || dp.OFF != nil) && dp.LJH22.writer.items - len(records) <= j && j < dp.LJH22.writer.items ==> Rec22Samples(dp.LJH22.writer, j, at(records, records.off + j - (dp.LJH22.writer.items - len(records))))
+//@   ensures kept22: old(dp.LJH22) != nil && old(dp.LJH22.HeaderWritten) ==> dp.LJH22.writer == old(dp.LJH22.writer) && (forall i int :: {dp.LJH22.writer.acc[i]} i < old(dp.LJH22.writer.n) ==> dp.LJH22.writer.acc[i] == old(dp.LJH22.writer.acc[i]))
+//@   ensures counted: len(records) > 0 && !dp.WritingPaused && (dp.LJH22 != nil || dp.LJH3 != nil || dp.OFF != nil) && result == nil ==> dp.numberWritten == old(dp.numberWritten) + len(records)
+//@   modifies dp.numberWritten, any(ljh.Writer).HeaderWritten, any(ljh.Writer).file, any(ljh.Writer).writer, any(ljh.Writer).RecordsWritten,
+//@            any(ljh.Writer3).HeaderWritten, any(ljh.Writer3).file, any(ljh.Writer3).writer, any(ljh.Writer3).RecordsWritten,
+//@            any(off.Writer).headerWritten, any(off.Writer).file, any(off.Writer).writer, any(off.Writer).recordsWritten,
+//@            any(asyncbufio.Writer).n, any(asyncbufio.Writer).acc, any(asyncbufio.Writer).items, any(asyncbufio.Writer).mark
+//@   loop 1
+//@     invariant -1 <= rangeindex && rangeindex <= len(records) - 1 && RecsReadable(records) && unchanged(dp.LJH22, dp.LJH3, dp.OFF, dp.WritingPaused, dp.numberWritten)
+//@     invariant w: dp.LJH22 != nil && allocated(dp.LJH22) && dp.LJH22.HeaderWritten && dp.LJH22.writer != nil && allocated(dp.LJH22.writer) && WInv(dp.LJH22.writer) && unchanged(dp.LJH22.Samples, dp.LJH22.SubframeDivisions, dp.LJH22.SubframeOffset)
+//@     invariant same: old(dp.LJH22.HeaderWritten) ==> dp.LJH22.writer == old(dp.LJH22.writer) && dp.LJH22.writer.n >= old(dp.LJH22.writer.n) && (forall i int :: {dp.LJH22.writer.acc[i]} i < old(dp.LJH22.writer.n) ==> dp.LJH22.writer.acc[i] == old(dp.LJH22.writer.acc[i]))
+//@     invariant others: W3OK(dp.LJH3) && WOFFOK(dp.OFF)
+//@          && (dp.LJH3 != nil ==> unchanged(dp.LJH3.HeaderWritten, dp.LJH3.writer, dp.LJH3.file, dp.LJH3.RecordsWritten) && (dp.LJH3.HeaderWritten ==> dp.LJH3.writer != dp.LJH22.writer && unchanged(dp.LJH3.writer.items, dp.LJH3.writer.n)))
+//@          && (dp.OFF != nil ==> unchanged(dp.OFF.headerWritten, dp.OFF.writer, dp.OFF.file, dp.OFF.recordsWritten) && (dp.OFF.headerWritten ==> dp.OFF.writer != dp.LJH22.writer && unchanged(dp.OFF.writer.items, dp.OFF.writer.n)))
+//@          && (dp.LJH3 != nil && dp.OFF != nil && dp.LJH3.HeaderWritten && dp.OFF.headerWritten ==> dp.LJH3.writer != dp.OFF.writer)
+//@     invariant count: dp.LJH22.writer.items == ite(old(dp.LJH22.HeaderWritten), old(dp.LJH22.writer.items), 1) + rangeindex + 1 && dp.LJH22.RecordsWritten == old(dp.LJH22.RecordsWritten) + rangeindex + 1
+//@     invariant len22: forall j int :: {dp.LJH22.writer.mark[j]} dp.LJH22.writer.items - (rangeindex + 1) <= j && j < dp.LJH22.writer.items ==> Rec22Len(dp.LJH22.writer, j, at(records, records.off + j - (dp.LJH22.writer.items - (rangeindex + 1))))
+//@     invariant count22: forall j int :: {dp.LJH22.writer.mark[j]} dp.LJH22.writer.items - (rangeindex + 1) <= j && j < dp.LJH22.writer.items ==> Rec22Count(dp.LJH22.writer, j, at(records, records.off + j - (dp.LJH22.writer.items - (rangeindex + 1))), dp.LJH22.SubframeDivisions, dp.LJH22.SubframeOffset)
+//@     invariant stamp22: forall j int :: {dp.LJH22.writer.mark[j]} dp.LJH22.writer.items - (rangeindex + 1) <= j && j < dp.LJH22.writer.items ==> Rec22Stamp(dp.LJH22.writer, j, at(records, records.off + j - (dp.LJH22.writer.items - (rangeindex + 1))))
+//@     invariant samples22: forall j int :: {dp.LJH22.writer.mark[j]} dp.LJH22.writer.items - (rangeindex + 1) <= j && j < dp.LJH22.writer.items ==> Rec22Samples(dp.LJH22.writer, j, at(records, records.off + j - (dp.LJH22.writer.items - (rangeindex + 1))))
+//@     invariant lens: forall p int :: {at(records, p)} records.off <= p && p < records.off + len(records) ==> len(at(records, p).data) == dp.LJH22.Samples
+//@   loop 2
+//@     invariant -1 <= rangeindex && rangeindex <= len(records) - 1 && RecsReadable(records) && unchanged(dp.LJH22, dp.LJH3, dp.OFF, dp.WritingPaused, dp.numberWritten)
+//@     invariant w: dp.LJH3 != nil && allocated(dp.LJH3) && dp.LJH3.HeaderWritten && dp.LJH3.writer != nil && allocated(dp.LJH3.writer) && WInv(dp.LJH3.writer)
+//@     invariant count: dp.LJH3.writer.items == ite(old(dp.LJH3.HeaderWritten), old(dp.LJH3.writer.items), 2) + rangeindex + 1 && dp.LJH3.RecordsWritten == old(dp.LJH3.RecordsWritten) + rangeindex + 1
+//@     invariant frozen22: dp.LJH22 != nil ==> W22OK(dp.LJH22) && dp.LJH22.HeaderWritten == pre(dp.LJH22.HeaderWritten) && dp.LJH22.writer == pre(dp.LJH22.writer) && dp.LJH22.RecordsWritten == pre(dp.LJH22.RecordsWritten)
+//@          && (dp.LJH22.HeaderWritten ==> dp.LJH22.writer != dp.LJH3.writer && dp.LJH22.writer.items == pre(dp.LJH22.writer.items) && dp.LJH22.writer.n == pre(dp.LJH22.writer.n)
+//@               && (forall i int :: {dp.LJH22.writer.acc[i]} dp.LJH22.writer.acc[i] == pre(dp.LJH22.writer.acc[i])) && (forall j int :: {dp.LJH22.writer.mark[j]} dp.LJH22.writer.mark[j] == pre(dp.LJH22.writer.mark[j])))
+//@     invariant others: WOFFOK(dp.OFF) && (dp.OFF != nil ==> unchanged(dp.OFF.headerWritten, dp.OFF.writer, dp.OFF.file, dp.OFF.recordsWritten) && (dp.OFF.headerWritten ==> dp.OFF.writer != dp.LJH3.writer && unchanged(dp.OFF.writer.items, dp.OFF.writer.n)))
+//@   loop 3
+//@     invariant -1 <= rangeindex && rangeindex <= len(records) - 1 && RecsReadable(records) && unchanged(dp.LJH22, dp.LJH3, dp.OFF, dp.WritingPaused, dp.numberWritten)
+//@     invariant w: dp.OFF != nil && allocated(dp.OFF) && dp.OFF.headerWritten && dp.OFF.writer != nil && allocated(dp.OFF.writer) && WInv(dp.OFF.writer) && dp.OFF.ModelInfo.projectors != nil && dp.OFF.ModelInfo.basis != nil
+//@     invariant count: dp.OFF.writer.items == ite(old(dp.OFF.headerWritten), old(dp.OFF.writer.items), 4) + rangeindex + 1 && dp.OFF.recordsWritten == old(dp.OFF.recordsWritten) + rangeindex + 1
+//@     invariant frozen22: dp.LJH22 != nil ==> W22OK(dp.LJH22) && dp.LJH22.HeaderWritten == pre(dp.LJH22.HeaderWritten) && dp.LJH22.writer == pre(dp.LJH22.writer) && dp.LJH22.RecordsWritten == pre(dp.LJH22.RecordsWritten)
+//@          && (dp.LJH22.HeaderWritten ==> dp.LJH22.writer != dp.OFF.writer && dp.LJH22.writer.items == pre(dp.LJH22.writer.items) && dp.LJH22.writer.n == pre(dp.LJH22.writer.n)
+//@               && (forall i int :: {dp.LJH22.writer.acc[i]} dp.LJH22.writer.acc[i] == pre(dp.LJH22.writer.acc[i])) && (forall j int :: {dp.LJH22.writer.mark[j]} dp.LJH22.writer.mark[j] == pre(dp.LJH22.writer.mark[j])))
+//@     invariant frozen3: dp.LJH3 != nil ==> W3OK(dp.LJH3) && dp.LJH3.HeaderWritten == pre(dp.LJH3.HeaderWritten) && dp.LJH3.writer == pre(dp.LJH3.writer) && dp.LJH3.RecordsWritten == pre(dp.LJH3.RecordsWritten)
+//@          && (dp.LJH3.HeaderWritten ==> dp.LJH3.writer != dp.OFF.writer && dp.LJH3.writer.items == pre(dp.LJH3.writer.items) && dp.LJH3.writer.n == pre(dp.LJH3.writer.n))
+//@   loop 4
+//@     invariant -1 <= rangeindex && rangeindex <= len(record.modelCoefs) - 1 && len(modelCoefs) == len(record.modelCoefs) && fresh(modelCoefs) && record != nil && allocated(record) && allocated(record.modelCoefs)
+//@     modifies modelCoefs[*]
